@@ -307,6 +307,62 @@ def gen_reuse(tier):
     return cases
 
 
+# ---------------------------------------------------------------------------
+# T / Spec keys in segments that missing= has to create: they are read from the target, like every other dynamic key
+
+def created_target():
+    return {'key': 'x', 'nk': 'fresh', 'a': {}, 'b': {'x': {}}, 'l': [{}]}
+
+
+CREATED_PATHS = {   # name -> (path builder, segments as functions of the ORIGINAL target)
+    'absent-parent/dynamic-last': (lambda: T['new'][T['key']], [lambda t: 'new', lambda t: t['key']]),
+    'absent-parent/dynamic-middle': (lambda: T['new'][T['key']]['c'], [lambda t: 'new', lambda t: t['key'], lambda t: 'c']),
+    'present-parent/dynamic-first-absent': (lambda: T['a'][T['key']]['c'], [lambda t: 'a', lambda t: t['key'], lambda t: 'c']),
+    'all-present/dynamic-middle': (lambda: T['b'][T['key']]['c'], [lambda t: 'b', lambda t: t['key'], lambda t: 'c']),
+    'dynamic-root-segment-absent': (lambda: T[T['nk']]['q']['c'], [lambda t: t['nk'], lambda t: 'q', lambda t: 'c']),
+    'two-absent-then-dynamic': (lambda: T['new']['mid'][T['key']]['c'], [lambda t: 'new', lambda t: 'mid', lambda t: t['key'], lambda t: 'c']),
+    'in-Path': (lambda: Path('new', T[T['key']], 'c'), [lambda t: 'new', lambda t: t['key'], lambda t: 'c']),
+    'Spec-key': (lambda: T['new'][Spec('key')]['c'], [lambda t: 'new', lambda t: t['key'], lambda t: 'c']),
+    'tuple-key-holding-T': (lambda: T['new'][(T['key'], 2)]['c'], [lambda t: 'new', lambda t: (t['key'], 2), lambda t: 'c']),
+    'two-dynamic': (lambda: T['new'][T['key']][T['nk']], [lambda t: 'new', lambda t: t['key'], lambda t: t['nk']]),
+    'below-list-item': (lambda: T['l'][0][T['key']]['c'], [lambda t: 'l', lambda t: 0, lambda t: t['key'], lambda t: 'c']),
+}
+CREATED_FACTORIES = {
+    'dict': lambda: dict,
+    # fresh containers that happen to hold the names the key specs read: the keys still come from the target
+    'dict-holding-the-key-names': lambda: (lambda: {'key': 'from-the-fresh-container', 'nk': 'from-the-fresh-container'}),
+}
+
+
+def run_created(case):
+    pname, fname, style = case
+    mkpath, segs = CREATED_PATHS[pname]
+    factory = CREATED_FACTORIES[fname]()
+    t, ref_t = created_target(), created_target()
+    keys = [seg(created_target()) for seg in segs]
+    cur = ref_t
+    for k in keys[:-1]:
+        try:
+            cur = cur[k]
+        except (KeyError, IndexError):
+            cur[k] = factory()
+            cur = cur[k]
+    cur[keys[-1]] = 'NEW'
+    path = mkpath()
+    where = {'path': repr(path), 'factory': fname, 'form': style}
+    try:
+        res = assign(t, path, 'NEW', missing=factory) if style == 'func' else glom(t, Assign(path, 'NEW', missing=factory))
+    except Exception as e:
+        return R({'expected': repr(ref_t), 'observed': 'raised %r' % (e,), 'target_after': repr(t), **where}, 'created-dynamic-key')
+    if res is not t or MR.canon(t) != MR.canon(ref_t):
+        return R({'expected': repr(ref_t), 'observed': repr(t), **where}, 'created-dynamic-key')
+    return R(None, 'ok', nontrivial=True, steps=len(keys), tags={pname, fname})
+
+
+def gen_created():
+    return [[p, f, s] for p in CREATED_PATHS for f in CREATED_FACTORIES for s in ('func', 'spec')]
+
+
 def subs(tier, only=None):
     from ..engine import fast_tracebacks
     from . import c14
@@ -328,6 +384,11 @@ def subs(tier, only=None):
                        rule='case = (path whose last / middle / only key is a T or Spec expression evaluated against the target, function | spec form): the effect '
                             'equals item assignment with the evaluated key, and reading the same path back yields the value',
                        min_nontrivial=15, min_outcomes=2, required_tags=['last-key-from-T', 'middle-key-from-T']))
+    if only in (None, 'dynamic-keys-in-created-segments'):
+        out.append(Sub('dynamic-keys-in-created-segments', gen_created(), run_created,
+                       rule='case = (path with T / Spec keys at or below the first absent segment, factory (dict | dict that already holds the names the keys read), '
+                            'function | spec form) with missing=: equals the plain nested assignment with the keys read from the target',
+                       min_nontrivial=40, min_outcomes=1, required_tags=['absent-parent/dynamic-middle', 'dict-holding-the-key-names']))
     if only in (None, 'dynamic-keys-below-wildcards'):
         from . import c12
         out.append(Sub('dynamic-keys-below-wildcards', c12.gen_dynamic_wildcard(('assign',)), c12.run_dynamic_wildcard,
